@@ -144,6 +144,34 @@ def overlaps_cases(ctx, out):
             out.disagreements.append({"op": "body.overlaps", "input": r, "model": m, "impl": i})
 
 
+def allele_cases(ctx, out):
+    """`AlleleOverlapType.equality / intersects / subset` on lists of allele texts (empty, equal, permuted, contained,
+    repeated): interpreted translated body vs the real class methods."""
+    from maflib.overlap_iter import AlleleOverlapType as AOT
+    rng = ctx.rng("bodies-allele")
+    pool = ["A", "C", "G", "T", "", "AT", "-"]
+    reqs, want = [], []
+    for _ in range(ctx.scale(300, 3000)):
+        base = [rng.choice(pool) for _k in range(rng.randrange(0, 4))]
+        other = list(base) if rng.random() < 0.3 else [rng.choice(pool) for _k in range(rng.randrange(0, 4))]
+        if rng.random() < 0.2:
+            other = other + other[:1]
+        rel = rng.choice(["equality", "intersects", "subset"])
+        reqs.append({"op": "body.allele", "rel": rel, "base": base, "other": other})
+        try:
+            want.append({"value": enc_val(getattr(AOT, rel)(list(base), list(other)))})
+        except Exception as e:  # noqa
+            want.append({"exc": exc_name(e)})
+    got = ctx.driver.run(reqs)
+    for r, m, i in zip(reqs, got, want):
+        out.evaluations += 1
+        out.distribution["body.allele (interpreted translated body vs implementation)"] += 1
+        if has_unmodelled(m):
+            out.unmodelled += 1
+        elif m != i:
+            out.disagreements.append({"op": "body.allele", "input": r, "model": m, "impl": i})
+
+
 def translation_report(ctx, out):
     """What the body translator covered on this tree (evidence only)."""
     try:
